@@ -302,4 +302,61 @@ def r8_no_mutation_while_iterating(chk):
 
 
 
-RULES = [r1_lexer_aliases, r2_type_tables, r3_access, r4_import_table, r5_apply_table, r6_trap, r7_translate_before_use, r8_no_mutation_while_iterating]
+
+def r9_every_type_record_is_translated(chk):
+    """wherever the IR generator builds a record of class `type` (a reference to a named or base type), the name it
+    stores went through the SMIv1 -> SMIv2 table - in genSimpleSyntax and in any other method that builds such a
+    record itself"""
+    model = chk.model
+    ci = model.cls(ir.INTER, 'IntermediateCodeGen')
+    chk.doc('C16.R9', 'IntermediateCodeGen: every record D with D["class"] = "type" gets D["type"] from a string '
+                      'constant or from self.SMI_TYPES.get(<name>, <name>) (possibly normalised by transOpers afterwards): '
+                      'no method emits a clause type name untranslated, so Counter / Gauge / NetworkAddress never reach '
+                      'the output under their SMIv1 spelling')
+    n = 0
+    for fn in [f for f in ci.node.body if isinstance(f, ast.FunctionDef)]:
+        recs = set()
+        for stmt in walk_ordered(fn):
+            if isinstance(stmt, ast.Assign) and isinstance(stmt.targets[0], ast.Subscript) and \
+                    isinstance(stmt.targets[0].value, ast.Name) and norm(stmt.targets[0].slice) == "'class'" and \
+                    isinstance(stmt.value, ast.Constant) and stmt.value.value == 'type':
+                recs.add(stmt.targets[0].value.id)
+        if not recs:
+            continue
+        state = {}
+
+        def st_of(e):
+            if isinstance(e, ast.Constant) and isinstance(e.value, str):
+                return 'const'
+            if isinstance(e, ast.Name):
+                return state.get(e.id, 'raw' if e.id in [a.arg for a in fn.args.args[1:]] else None)
+            if isinstance(e, ast.Subscript):
+                b = st_of(e.value)
+                return 'raw' if b in ('raw',) else b
+            if isinstance(e, ast.Call) and common.is_self_attr(e.func, 'transOpers') and e.args:
+                return st_of(e.args[0])
+            if isinstance(e, ast.Call) and norm(e.func) == 'self.SMI_TYPES.get' and e.args:
+                inner = st_of(e.args[0])
+                dflt = st_of(e.args[1]) if len(e.args) > 1 else None
+                return 'translated' if inner in ('raw', 'translated') and dflt in ('raw', 'translated') else inner
+            return None
+        for stmt in walk_ordered(fn):
+            if isinstance(stmt, ast.Assign) and isinstance(stmt.targets[0], ast.Subscript) and \
+                    isinstance(stmt.targets[0].value, ast.Name) and stmt.targets[0].value.id in recs and \
+                    norm(stmt.targets[0].slice) == "'type'":
+                n += 1
+                stt = st_of(stmt.value)
+                chk.ob('C16.R9', '%s/%s[type]' % (fn.name, stmt.targets[0].value.id), stt in ('const', 'translated'),
+                       where(ci.mod, stmt), 'the type name stored (%s) is %s' % (
+                           norm(stmt.value), 'taken from the clause without the SMIv1->SMIv2 translation'
+                           if stt == 'raw' else 'of unknown origin' if stt is None else stt))
+            if isinstance(stmt, ast.Assign) and len(stmt.targets) == 1 and isinstance(stmt.targets[0], ast.Name):
+                v = st_of(stmt.value)
+                if v is not None:
+                    state[stmt.targets[0].id] = v
+                else:
+                    state.pop(stmt.targets[0].id, None)
+    chk.floor('C16.R9', 2, 'genBits, genSimpleSyntax')
+
+
+RULES = [r1_lexer_aliases, r2_type_tables, r3_access, r4_import_table, r5_apply_table, r6_trap, r7_translate_before_use, r8_no_mutation_while_iterating, r9_every_type_record_is_translated]
